@@ -10,6 +10,8 @@ import (
 	"net"
 	"os"
 	"path/filepath"
+	"strings"
+	"sync"
 	"time"
 
 	"github.com/wmnsk/go-pfcp/ie"
@@ -27,33 +29,37 @@ type marker struct {
 
 // World is one harness instance: a BESS server, at most one running agent, scripted peers.
 type World struct {
-	Dir      string
-	AgentBin string
-	Cfg      agent.Cfg
-	Bess     *fakebess.Server
-	Agent    *agent.Agent
-	Peers    map[string]*pfcpx.Peer
-	UpTok    *pfcpx.Toks
-	CpTok    *pfcpx.Toks
-	Run      int
-	out      *bufio.Writer
-	outf     *os.File
-	Lines    int
-	Steps    int
-	Accepted int // accepted session requests (establishment, modification, deletion)
-	EMSock   *net.UnixListener
-	emConn   *net.UnixConn
-	markers  chan marker
-	NotifyL  *net.UnixListener
-	NotifyC  *net.UnixConn
-	AccessIP uint32
-	CoreIP   uint32
-	N4IP     uint32
-	RespWait time.Duration
-	Quiet    time.Duration // silence window after each step
-	Died     bool
-	HoldFar  time.Duration // C14: delay of farLookup add commands while a modification with SNDEM is processed
-	LastErr  string
+	Dir         string
+	AgentBin    string
+	Cfg         agent.Cfg
+	Bess        *fakebess.Server
+	Agent       *agent.Agent
+	Peers       map[string]*pfcpx.Peer
+	UpTok       *pfcpx.Toks
+	CpTok       *pfcpx.Toks
+	Run         int
+	out         *bufio.Writer
+	outf        *os.File
+	Lines       int
+	Steps       int
+	Accepted    int // accepted session requests (establishment, modification, deletion)
+	EMSock      *net.UnixListener
+	emConn      *net.UnixConn
+	markers     chan marker
+	NotifyL     *net.UnixListener
+	NotifyC     *net.UnixConn
+	AccessIP    uint32
+	CoreIP      uint32
+	N4IP        uint32
+	RespWait    time.Duration
+	Quiet       time.Duration // silence window after each step
+	Died        bool
+	SnapEvery   bool // attach the guarded state snapshot to every recorded step
+	evMu        sync.Mutex
+	evLog       []agent.Event // verifPoint events reported by the agent
+	pendingWait func()
+	HoldFar     time.Duration // C14: delay of farLookup add commands while a modification with SNDEM is processed
+	LastErr     string
 }
 
 func ifaceIP(name string) uint32 {
@@ -266,6 +272,19 @@ func (w *World) StartAgent() error {
 
 	w.Died = false
 
+	go func(a *agent.Agent) {
+		for {
+			select {
+			case ev := <-a.Events:
+				w.evMu.Lock()
+				w.evLog = append(w.evLog, ev)
+				w.evMu.Unlock()
+			case <-a.Done():
+				return
+			}
+		}
+	}(w.Agent)
+
 	// ready = a heartbeat on a throw-away socket is answered
 	probe, err := pfcpx.NewPeer("probe", "127.0.0.1:0", w.Cfg.N4Addr+":8805", "127.0.0.1")
 	if err != nil {
@@ -287,6 +306,12 @@ func (w *World) StartAgent() error {
 	if !ready {
 		return fmt.Errorf("agent did not become ready (alive=%v): %s", w.Agent.Alive(), tailStr(w.Agent.Stderr(), 600))
 	}
+
+	for i := 0; i < 100 && !w.Agent.CtlConnected(); i++ {
+		time.Sleep(2 * time.Millisecond)
+	}
+
+	_ = w.Agent.Report(true)
 
 	w.Bess.WaitIdle(5*time.Millisecond, 2*time.Second)
 	w.emit(map[string]interface{}{"ev": "start", "cfg": w.cfgJSON(), "dp": w.dpJSON(), "cmds": w.Bess.Snapshot().Cmds})
@@ -461,4 +486,113 @@ func (w *World) dpJSON() map[string]interface{} {
 	}
 
 	return map[string]interface{}{"pdr": pdr, "far": far, "appQer": qer(t.AppQer, true), "sessQer": qer(t.SessQer, false), "slice": slice}
+}
+
+// EventCount returns how many reported verifPoint events have the given name and argument prefix.
+func (w *World) EventCount(name, argPrefix string) int {
+	w.evMu.Lock()
+	defer w.evMu.Unlock()
+
+	n := 0
+	for _, e := range w.evLog {
+		if e.Name == name && strings.HasPrefix(e.Args, argPrefix) {
+			n++
+		}
+	}
+
+	return n
+}
+
+// WaitEventCount waits until EventCount(name, argPrefix) >= n. Returns false on timeout (also when hooks are absent).
+func (w *World) WaitEventCount(name, argPrefix string, n int, timeout time.Duration) bool {
+	deadline := time.Now().Add(timeout)
+	for time.Now().Before(deadline) {
+		if w.EventCount(name, argPrefix) >= n {
+			return true
+		}
+
+		if w.Agent == nil || !w.Agent.Alive() {
+			return false
+		}
+
+		time.Sleep(500 * time.Microsecond)
+	}
+
+	return false
+}
+
+// snapJSON asks the agent for its guarded state snapshot and projects it. The projection only re-encodes.
+func (w *World) snapJSON() map[string]interface{} {
+	none := map[string]interface{}{"has": false, "ipHeld": []interface{}{}, "ipFree": 0, "teidCount": 0, "store": []interface{}{}, "gauge": 0, "connected": false}
+
+	if w.Agent == nil || !w.Agent.Alive() {
+		return none
+	}
+
+	raw, err := w.Agent.Snapshot(2 * time.Second)
+	if err != nil {
+		return none
+	}
+
+	var sn struct {
+		Connected bool              `json:"connected"`
+		IPHeld    map[string]string `json:"ipHeld"`
+		IPFree    int               `json:"ipFree"`
+		TeidCount int               `json:"teidCount"`
+		Gauge     int               `json:"gauge"`
+		Conns     map[string]struct {
+			Seids []string `json:"seids"`
+		} `json:"conns"`
+	}
+
+	if json.Unmarshal([]byte(raw), &sn) != nil {
+		return none
+	}
+
+	held := []map[string]interface{}{}
+
+	for k, v := range sn.IPHeld {
+		var seid uint64
+		fmt.Sscanf(k, "%d", &seid)
+		held = append(held, map[string]interface{}{"u": w.UpTok.Get(seid), "ip": pfcpx.V32(uint64(pfcpx.IP4(net.ParseIP(v))))})
+	}
+
+	store := []map[string]interface{}{}
+
+	for addr, c := range sn.Conns {
+		name := "unknown:" + addr
+
+		for pn, p := range w.Peers {
+			if p.LocalAddr() == addr {
+				name = pn
+			}
+		}
+
+		toks := []string{}
+
+		for _, s := range c.Seids {
+			var seid uint64
+			fmt.Sscanf(s, "%d", &seid)
+			toks = append(toks, w.UpTok.Get(seid))
+		}
+
+		store = append(store, map[string]interface{}{"peer": name, "seids": toks})
+	}
+
+	free := sn.IPFree
+	if free > 65535 {
+		free = 65535
+	}
+
+	tc := sn.TeidCount
+	if tc > 65535 {
+		tc = 65535
+	}
+
+	g := sn.Gauge
+	if g < 0 || g > 65535 {
+		g = 65535
+	}
+
+	return map[string]interface{}{"has": true, "ipHeld": held, "ipFree": free, "teidCount": tc, "store": store, "gauge": g, "connected": sn.Connected}
 }
